@@ -1013,18 +1013,15 @@ func (p *PolicyManager) deletePodRuleByKeyword(pod *corev1.Pod, chain utiliptabl
 		}
 		return nil
 	}
-	var podLine string
-	for i := range lines {
+	found := false
+	for _, podLine := range lines {
 		// -A GLX-INGRESS -d x.x.x.x -j GLX-POD-XXXXX
 		// -A GLX-EGRESS -s x.x.x.x -j GLX-POD-XXXXX
-		if strings.Contains(lines[i], keyword) {
-			podLine = lines[i]
-			break
+		// there is a line for each ip the pod has had while the chain existed, delete all of them
+		if !strings.Contains(podLine, keyword) {
+			continue
 		}
-	}
-	if podLine == "" {
-		glog.V(5).Infof("find no pod %s_%s keyword %s rule line in %s", pod.Name, pod.Namespace, keyword, string(chain))
-	} else {
+		found = true
 		glog.V(5).Infof("find pod %s_%s keyword %s rule line in %s: %s", pod.Name, pod.Namespace, keyword,
 			string(chain), podLine)
 		parts := strings.Split(podLine, " ")
@@ -1041,6 +1038,9 @@ func (p *PolicyManager) deletePodRuleByKeyword(pod *corev1.Pod, chain utiliptabl
 					keyword, string(chain), err)
 			}
 		}
+	}
+	if !found {
+		glog.V(5).Infof("find no pod %s_%s keyword %s rule line in %s", pod.Name, pod.Namespace, keyword, string(chain))
 	}
 	return nil
 }
